@@ -59,6 +59,11 @@ func (vc *ConnCursor) Rowid() (int64, error) {
 }
 
 func (vc *ConnCursor) Column(context *sqlite.VirtualTableContext, i int) error {
+	if context.NoChange() {
+		// a column that an UPDATE does not assign: leave it unset so that
+		// Update sees it as unchanged instead of re-parsing its text
+		return nil
+	}
 	switch i {
 	case 0:
 		if vc.vm.sc.deadline.IsZero() {
@@ -115,9 +120,10 @@ func (c *ConnModule) Update(value sqlite.Value, values ...sqlite.Value) error {
 				return fmt.Errorf("write_time: must be like %s", s3db.SQLiteTimeFormat)
 			}
 		}
+		// the write time is now the user's, not the current transaction's
+		c.sc.txFixedWriteTime = false
 	}
 
-	c.sc.txFixedWriteTime = false
 	c.sc.ResetContext()
 
 	return nil
